@@ -242,6 +242,19 @@ func guarded(f func()) (panicMsg string, alloc uint64) {
 
 const allocSlack = 256 << 10
 
+// confirmAlloc re-runs a case whose only complaint is the amount of memory allocated.
+// TotalAlloc is process-wide: goroutines of the harness, of the fuzz worker and of the
+// victim allocate too, and on a busy machine the measured window can be long. An
+// allocation caused by the input is reproduced by every run of the case; background
+// noise is not. The complaint is reported only if three runs in a row make it.
+func confirmAlloc(run func() pbt.Verdict) pbt.Verdict {
+	v := run()
+	for i := 0; i < 2 && v.Violation != "" && strings.Contains(v.Violation, "allocated"); i++ {
+		v = run()
+	}
+	return v
+}
+
 // ---------- part: dispatch ----------
 
 type Msg struct {
@@ -968,9 +981,9 @@ func TestProp(t *testing.T) {
 			"panics are observed through synchronous verif-hook entry points; goroutine-level crashes are covered by the native fuzz targets of the thorough tier",
 		},
 		Parts: []pbt.Part{
-			pbt.NewPart("dispatch", 5, genD, runD),
-			pbt.NewPart("bitfield", 2, genB, runB),
-			pbt.NewPart("wire", 3, genW, runW),
+			pbt.NewPart("dispatch", 5, genD, func(c DCase) pbt.Verdict { return confirmAlloc(func() pbt.Verdict { return runD(c) }) }),
+			pbt.NewPart("bitfield", 2, genB, func(c BCase) pbt.Verdict { return confirmAlloc(func() pbt.Verdict { return runB(c) }) }),
+			pbt.NewPart("wire", 3, genW, func(c WCase) pbt.Verdict { return confirmAlloc(func() pbt.Verdict { return runW(c) }) }),
 		},
 	})
 }
